@@ -54,8 +54,7 @@ func (p *resultsPrinter) PrintedAnything() bool {
 }
 
 func (p *resultsPrinter) printNode(node *CandidateNode, writer io.Writer) error {
-	p.printedMatches = p.printedMatches || (node.Tag != "!!null" &&
-		(node.Tag != "!!bool" || node.Value != "false"))
+	p.printedMatches = p.printedMatches || isTruthyNode(node)
 	return p.encoder.Encode(writer, node)
 }
 
